@@ -290,6 +290,15 @@ class StmtMixin:
         key = ast.unparse(stmt.iter)
         k = self.loop_ordinal(stmt, key)
         lspec = getattr(self.spec, "loops", {}).get("%s#%d" % (key, k)) or getattr(self.spec, "loops", {}).get(key)
+        if lspec is None and isinstance(stmt.iter, (ast.List, ast.Tuple)) and not any(isinstance(e, ast.Starred) for e in stmt.iter.elts):
+            # a display of fixed length: the loop is unrolled over its elements (evaluated once, in order, as Python does)
+            out = []
+            for s, vs in self.eval_list(st, list(stmt.iter.elts)):
+                if isinstance(vs, Raise):
+                    out.append((s, ("raise", vs)))
+                else:
+                    out.extend(self.run_loop(s, stmt, V("static", None, tuple(vs)), None, "%s#%d" % (key, k)))
+            return out
         return self._lift(self.eval(st, stmt.iter), lambda s, it: self.run_loop(s, stmt, it, lspec, "%s#%d" % (key, k)))
 
     def run_loop(self, st, stmt, it, lspec, key):
@@ -360,27 +369,36 @@ class StmtMixin:
             return h
 
         out = []
-        it_st = havoc(st)
-        i = fresh("i")
-        it_st.assume(i >= 0, i < length)
-        ctx = LoopCtx(self, it_st, entry, i, seq, length=length)
-        it_st.assume(*lspec.inv(ctx))
-        it_st.path.append("%s:iter" % name)
-        it_st.ghost["i:" + key] = i
-        if self.feasible(it_st):
-            elem = binder(self, it_st, i) if binder else V("ref", seq[i], self.registry.elem_hint(it))
-            for s1, o1 in self.assign(it_st, stmt.target, elem):
-                for s2, o2 in self.exec_block(s1, stmt.body):
-                    if o2 is NORMAL or o2[0] == "continue":
-                        c2 = LoopCtx(self, s2, entry, i + 1, seq, length=length)
-                        for idx, f in enumerate(lspec.inv(c2)):
-                            self.oblige(s2, "%s.preserve.%d" % (name, idx), f, kind="loop-preserve")
-                        self.cover.add(name + ".iter")
-                    elif o2[0] == "break":
-                        s2.path.append("%s:break" % name)
-                        out.append((s2, NORMAL))
-                    else:
-                        out.append((s2, o2))
+        # the arbitrary iteration: index i symbolic -- or, for a loop over a display of known length whose spec asks for it
+        # (`concrete_indices`), one iteration per concrete index (the invariant is then stated at numerals: smaller VCs)
+        n_conc = z3.simplify(length)
+        if getattr(lspec, "concrete_indices", False) and z3.is_int_value(n_conc) and n_conc.as_long() <= 4:
+            indices = [z3.IntVal(k_) for k_ in range(n_conc.as_long())]
+        else:
+            indices = [None]
+        for i_fixed in indices:
+          it_st = havoc(st)
+          i = fresh("i") if i_fixed is None else i_fixed
+          if i_fixed is None:
+              it_st.assume(i >= 0, i < length)
+          ctx = LoopCtx(self, it_st, entry, i, seq, length=length)
+          it_st.assume(*lspec.inv(ctx))
+          it_st.path.append("%s:iter%s" % (name, "" if i_fixed is None else "[%d]" % i_fixed.as_long()))
+          it_st.ghost["i:" + key] = i
+          if self.feasible(it_st):
+              elem = binder(self, it_st, i) if binder else V("ref", seq[i], self.registry.elem_hint(it))
+              for s1, o1 in self.assign(it_st, stmt.target, elem):
+                  for s2, o2 in self.exec_block(s1, stmt.body):
+                      if o2 is NORMAL or o2[0] == "continue":
+                          c2 = LoopCtx(self, s2, entry, i + 1, seq, length=length)
+                          for idx, f in enumerate(lspec.inv(c2)):
+                              self.oblige(s2, "%s.preserve.%d" % (name, idx), f, kind="loop-preserve")
+                          self.cover.add(name + ".iter")
+                      elif o2[0] == "break":
+                          s2.path.append("%s:break" % name)
+                          out.append((s2, NORMAL))
+                      else:
+                          out.append((s2, o2))
         # 3. exit
         ex_st = havoc(st)
         for v in modified:
